@@ -713,6 +713,25 @@ func (e *Exec) mergeSelect(elems []Value, idx *Term) (Value, bool) {
 	}
 	switch first := elems[0].(type) {
 	case *Term:
+		// a table of constants affine in the index (e.g. goja's intCache[k] = k-256) is idx+c: no ite chain
+		if first.sort.k == kBV && first.konst && len(elems) >= 4 {
+			w := first.sort.w
+			affine := true
+			for k, x := range elems {
+				tv, isT := x.(*Term)
+				if !isT || tv.sort != first.sort || !tv.konst || tv.c != (first.c+uint64(k))&mask(w) {
+					affine = false
+					break
+				}
+			}
+			if affine {
+				ix := idx
+				if w < 64 {
+					ix = e.extract(w-1, 0, idx)
+				}
+				return e.bvbin("bvadd", ix, mkBV(w, first.c)), true
+			}
+		}
 		var acc *Term
 		for k := len(elems) - 1; k >= 0; k-- {
 			tv, isT := elems[k].(*Term)
